@@ -20,13 +20,13 @@ func envOr(k, d string) string {
 }
 
 type RunCfg struct {
-	Repo     string
-	Verif    string
-	Tier     string
-	Solver   *SolverCfg
-	Rounds   int
-	Verbose  bool
-	DumpDir  string
+	Repo    string
+	Verif   string
+	Tier    string
+	Solver  *SolverCfg
+	Rounds  int
+	Verbose bool
+	DumpDir string
 }
 
 func main() {
